@@ -116,6 +116,10 @@ ToOwned(d, src) ==
     LET x == Resolve(src)
     IN  IF x.ok THEN Store(d, x.c, x.s) ELSE Fail(Panic)
 
+\* a natural number given as four 16-bit limbs (TLC integers are 32 bit) that is >= 2^31,
+\* i.e. beyond every length and every image that occurs here
+IsFar(l) == Len(l) = 4 /\ (l[3] > 0 \/ l[4] > 0 \/ l[2] >= 32768)
+
 \* rebuild from a machine-word image given as 16-bit limbs (C04)
 FromRaw(d, c, n, limbs) ==
     LET bits == BitsOfLimbs(limbs)
@@ -125,6 +129,9 @@ FromRaw(d, c, n, limbs) ==
                  /\ out' = [ok |-> TRUE, v |-> View(c, s)]
                  /\ OnlyReg
         ELSE Fail([ok |-> FALSE])
+
+\* a count far beyond any image (given as limbs, see IsFar): the image never holds that many symbols
+FromRawFar(n) == IsFar(n) /\ Fail([ok |-> FALSE])
 
 \* serialize + deserialize is the identity on content (C18)
 SerdeRT(d, r) == Store(d, reg[r].c, reg[r].s)
@@ -210,6 +217,19 @@ Obs(src, gets, nths) ==
                         nth |-> [j \in 1 .. Len(nths) |-> NthRes(x.s, nths[j])]]
                   ELSE Panic
         /\ OnlyOut
+
+\* Positions far beyond any sequence (up to usize::MAX), given as four 16-bit limbs because TLC
+\* integers are 32 bit: "positional access beyond the end never returns a symbol" holds for EVERY
+\* such position -- also for those whose bit offset would wrap around the address space.
+\* how: "get" (optional accessor), "nth" / "idx" (indexing forms), or a range form whose bound(s)
+\* a / b are given as limbs; the bound that decides is far.
+FarDecides(how, a, b) ==
+    CASE how \in {"get", "nth", "idx", "rf"} -> IsFar(a)
+      [] how \in {"r", "ri", "rt", "rti"} -> IsFar(b)
+Far(src, how, a, b) ==
+    /\ Resolve(src).ok /\ FarDecides(how, a, b)
+    /\ out' = IF how = "get" THEN [res |-> -1] ELSE Panic
+    /\ OnlyOut
 
 \* every way of turning a sequence into text gives its display characters (C01)
 ToText(src) ==
